@@ -118,6 +118,9 @@ impl Check for SimCheck {
         if ["C02", "C03", "C05"].contains(&self.id) {
             v.push(Part { name: "bb-incr", kind: PartKind::Random { cases: tier.pick(160, 3000), main: 100, ops: 5, oplen: 40, sched: 0 } });
         }
+        if self.id == "C04" {
+            v.push(Part { name: "bb-overlap", kind: PartKind::Random { cases: tier.pick(96, 2000), main: 220, ops: 0, oplen: 0, sched: 0 } });
+        }
         if self.id == "C19" {
             v.push(Part { name: "pty", kind: PartKind::Random { cases: tier.pick(24, 300), main: 200, ops: 0, oplen: 0, sched: 0 } });
         }
@@ -134,6 +137,13 @@ impl Check for SimCheck {
         v
     }
     fn run_random(&mut self, _part: &str, case: &Case, env: &mut Env) -> CaseOut {
+        if _part == "bb-overlap" {
+            // the C16 task sets on the real binary; here only the overlap measurements are reported
+            let mut out = crate::bb::c16::C16.run_case(case, env);
+            out.nontrivial = out.classes.iter().any(|c| c == "j-reached" || c == "overlapping-commands");
+            out.viols.sort_by_key(|v| v.prop != "C04");
+            return out;
+        }
         if _part == "bb-incr" {
             return crate::bb::incr::run_incr_case(case, env, self.id);
         }
